@@ -129,6 +129,34 @@ def replay_modules(ctx: Ctx, recs: List[Dict[str, Any]]) -> None:
                                                                                 "observed": got.flatten().tolist()[:4], "expected": want.flatten().tolist()[:4]})
 
 
+def explicit_inputs_keep_their_dtype(ctx: Ctx) -> None:
+    """A module built from a float32 derivative (already simulated) and called with float64 inputs given explicitly prices those
+    inputs in float64: the derivative's state is not used, so its dtype is irrelevant."""
+    from pfhedge.instruments import BrownianStock
+    from pfhedge.nn import BlackScholes
+    cls = classes()
+    lm = torch.tensor([-0.3, -0.05, 0.0, 0.2], dtype=DT)
+    kw_all = {"log_moneyness": lm, "max_log_moneyness": torch.tensor([-0.1, 0.0, 0.3, 0.2], dtype=DT), "time_to_maturity": torch.full_like(lm, 0.3), "volatility": torch.full_like(lm, 0.35)}
+    for p, (dcls, mcls) in cls.items():
+        ul = BrownianStock(sigma=0.25, dt=0.25, dtype=torch.float32)
+        d = dcls(ul, strike=1.25, maturity=0.5)
+        d.simulate(n_paths=3)
+        for m in (BlackScholes(d), mcls.from_derivative(d)):
+            kw = {k: v.clone() for k, v in kw_all.items() if k in m.inputs()}
+            for g in GREEKS:
+                try:
+                    got = getattr(m, g)(**{k: v.clone() for k, v in kw.items()}).detach()
+                    want = call_sig(functional(p, g), **{k: v.clone() for k, v in kw_all.items()}, call=True, strike=1.25).detach()
+                except Exception as ex:
+                    ctx.violation(f"module:explicit-dtype:{p}:raises", f"{type(m).__name__}.{g} raised {type(ex).__name__} for float64 inputs on a module built from a float32 derivative", {"error": repr(ex)[:200]})
+                    continue
+                ctx.count(n=1)
+                tol = 1e-12 if not (p == "american_binary" and g in ("gamma", "vega", "theta")) else 1e-8
+                if got.dtype != DT or not bool((((got - want).abs() <= tol * (1 + want.abs())) | (got.isnan() & want.isnan())).all()):
+                    ctx.violation(f"module:explicit-dtype:{p}:{g}", f"{type(m).__name__}.{g} with float64 inputs given explicitly is not the float64 value of the formula "
+                                  "(the module was built from a float32 derivative)", {"dtype": str(got.dtype), "observed": got.tolist(), "expected": want.tolist()})
+
+
 def modules_on_lattice(ctx: Ctx, grid: Grid) -> None:
     """Every module method agrees with the functional form on the whole lattice (explicit inputs, every strike of the axis)."""
     cls = classes()
@@ -217,6 +245,7 @@ def check(ctx: Ctx) -> None:
     if not seen.get("homogeneous"):
         raise MachineryError("no homogeneity obligation")
     modules_on_lattice(ctx, grid)
+    explicit_inputs_keep_their_dtype(ctx)
     bs_common.positional_forms(ctx, grid)
     torch.set_default_dtype(torch.float32)       # the library's default: float64 INPUTS must still be priced in float64
     try:
